@@ -25,3 +25,22 @@ UNITS = {
     'OV_getLocationBoundaryOrLine': dict(src=ONG, qual=NS + 'OverlayLabel::getLocationBoundaryOrLine', nparams=3, imports=P,
                                          gname='m_getLocationBoundaryOrLine_3', deps=['OV_isBoundary1', 'OV_getLocation3', 'OV_getLineLocation1'], enum_scopes=LBL),
 }
+
+# ---- wave 8: the clipping optimisation (RingClipper, a Sutherland-Hodgman pass per box edge) and the depth delta of a ring.
+# Doubles are read as RATIONALS (C03.GenPreludeClip: add/sub/mul/div = Qplus/Qminus/Qmult/Qdiv, comparisons decided exactly),
+# so the division in intersectionLineX/Y is the exact quotient; binary64 rounding of the quotient is not modelled (the
+# correspondence stream compares exactly where the slope is a power of two and within 1e-9 relative otherwise).
+RC = 'src/operation/overlayng/RingClipper.cpp'
+ENB = 'src/operation/overlayng/EdgeNodingBuilder.cpp'
+PC = ['C03.GenPreludeClip']
+BOX = {k: NS + 'RingClipper::' + k for k in ('BOX_LEFT', 'BOX_TOP', 'BOX_RIGHT', 'BOX_BOTTOM')}
+UNITS.update({
+    'RC_isInsideEdge': dict(src=RC, qual=NS + 'RingClipper::isInsideEdge', nparams=2, imports=PC, imports_last=True, gname='m_isInsideEdge_2', consts=BOX),
+    'RC_intersectionLineX': dict(src=RC, qual=NS + 'RingClipper::intersectionLineX', nparams=3, imports=PC, imports_last=True, gname='g_intersectionLineX'),
+    'RC_intersectionLineY': dict(src=RC, qual=NS + 'RingClipper::intersectionLineY', nparams=3, imports=PC, imports_last=True, gname='g_intersectionLineY'),
+    'RC_intersection': dict(src=RC, qual=NS + 'RingClipper::intersection', nparams=4, imports=PC, imports_last=True, gname='m_intersection_4', consts=BOX,
+                            deps=['RC_intersectionLineX', 'RC_intersectionLineY'], returns_param='rsltPt', ctor_skip_defaults=True, param_types={'rsltPt': 'rpt'},
+                            aliases={'m_intersectionLineX_3': '(fun _ : renv => g_intersectionLineX)', 'm_intersectionLineY_3': '(fun _ : renv => g_intersectionLineY)'}),
+    'ENB_computeDepthDelta': dict(src=ENB, qual=NS + 'EdgeNodingBuilder::computeDepthDelta', nparams=2, imports=PC, imports_last=True,
+                                  gname='c_computeDepthDelta_2', virtuals={'c_isCCW_1': 'list rpt -> bool'}),
+})
